@@ -64,25 +64,27 @@ class Hist(object):
         pre_level = self.level_value()
         cuts = []
         if cut_after is not None:
-            saved = (dict(self.ex.loop_bounds), self.ex.capture_cuts)
-            self.ex.loop_bounds = dict(self.ex.loop_bounds)
-            self.ex.loop_bounds['::match_order'] = cut_after
+            fn = self.ex.resolve('PriceLevel::match_order').parse()
+            head = fn.loop_containing_call('match_against')
+            if head is None:
+                raise Unsupported('match_order: no loop around match_against found')
+            saved = (dict(self.ex.block_bounds), self.ex.capture_cuts)
+            self.ex.block_bounds = dict(self.ex.block_bounds)
+            self.ex.block_bounds[(fn.name, head)] = cut_after
             self.ex.capture_cuts = True
             ncut = len(self.ex.cuts)
             nunw = len(self.ex.unwinds)
         r, st2, l = self.ex.call('PriceLevel::match_order', [self.lref, q, taker, self.gref], self.st.copy(),
                                  self._pc())
         if cut_after is not None:
-            self.ex.loop_bounds, self.ex.capture_cuts = saved
+            self.ex.block_bounds, self.ex.capture_cuts = saved
             for g, cst, fr, b in self.ex.cuts[ncut:]:
                 if not fr.fn.name.endswith('::match_order'):
                     continue
-                names = fr.fn.debug_names
-                cuts.append({'guard': g, 'level': cst.mem[self.root],
-                             'remaining': cst.mem.get(('L', fr.fid, names['remaining'])),
-                             'result': cst.mem.get(('L', fr.fid, names['result']))})
+                cuts.append(self._cut_record(g, cst, fr, b))
             # the cut is handled by induction: drop its unwinding events (those of match_order only)
-            keep = self.ex.unwinds[:nunw] + [u for u in self.ex.unwinds[nunw:] if not u[1].endswith('::match_order')]
+            keep = self.ex.unwinds[:nunw] + [u for u in self.ex.unwinds[nunw:]
+                                             if not (u[1].endswith('::match_order') and u[2] == head)]
             self.ex.unwinds[:] = keep
         if st2 is None:
             # every path was cut (no path returns within the bound)
@@ -95,6 +97,52 @@ class Hist(object):
         self._did(l)
         rec = {'op': 'match', 'q': q, 'taker': taker, 'ret': r, 'pre': pre, 'post': self.resting(),
                'agg': self.aggregates(), 'live': l, 'cuts': cuts, 'pre_level': pre_level}
+        self.steps.append(rec)
+        return rec
+
+    def _cut_record(self, g, cst, fr, b):
+        names = fr.fn.debug_names
+        d = {'guard': g, 'level': cst.mem[self.root], 'block': b, 'fn': fr.fn, 'locals': {}}
+        for n, idx in names.items():
+            v = cst.mem.get(('L', fr.fid, idx), UNDEF)
+            if v is not UNDEF:
+                d['locals'][n] = v
+        d['remaining'] = d['locals'].get('remaining')
+        d['result'] = d['locals'].get('result')
+        return d
+
+    def match_iteration(self, fn, block, q, remaining, result, extra_locals=None, taker=None):
+        """ONE iteration of match_order's loop, started at the loop head `block` with arbitrary values
+        of the loop-carried variables; returns a record like match() with the cuts reached at the
+        next loop head"""
+        taker = taker if taker is not None else const_order_id(TAKER_ID)
+        pre = self.resting()
+        pre_level = self.level_value()
+        saved = (dict(self.ex.block_bounds), self.ex.capture_cuts)
+        self.ex.block_bounds = dict(self.ex.block_bounds)
+        self.ex.block_bounds[(fn.name, block)] = 1
+        self.ex.capture_cuts = True
+        ncut = len(self.ex.cuts)
+        nunw = len(self.ex.unwinds)
+        loc = {'self': self.lref, 'incoming_quantity': q, 'taker_order_id': taker,
+               'transaction_id_generator': self.gref, 'result': result, 'remaining': remaining}
+        loc.update(extra_locals or {})
+        r, st2, l, fr = self.ex.run_from(fn, block, loc, self.st.copy(), self._pc())
+        self.ex.block_bounds, self.ex.capture_cuts = saved
+        cuts = [self._cut_record(g, cst, f2, b) for g, cst, f2, b in self.ex.cuts[ncut:]
+                if f2.fn.name.endswith('::match_order')]
+        keep = self.ex.unwinds[:nunw] + [u for u in self.ex.unwinds[nunw:]
+                                         if not (u[1].endswith('::match_order') and u[2] == block)]
+        self.ex.unwinds[:] = keep
+        rec = {'op': 'match-iteration', 'q': q, 'taker': taker, 'ret': r, 'pre': pre, 'pre_level': pre_level,
+               'cuts': cuts, 'live': l, 'start': {'remaining': remaining, 'result': result, 'locals': loc}}
+        if st2 is None:
+            rec.update({'post': [], 'agg': None})
+            self.live = S.FALSE
+        else:
+            self.st = st2
+            self._did(l)
+            rec.update({'post': self.resting(), 'agg': self.aggregates()})
         self.steps.append(rec)
         return rec
 
